@@ -92,8 +92,69 @@ def scalarmult(rep, prog):
                        "product depends on scalar parameter n and point parameter p", loc=c.loc())
                 fw = f.forward_slice([c.dest["l"]])
                 rep.ob("PROV", "%s|output" % f.path, pq in fw, "the product is written to the output parameter q", loc=c.loc())
+    all_paths(rep, prog, roots[0], seen)
     rep.floor("variable-base multiplications reachable from crypto_scalarmult", n_mul, 1)
     rep.sample({"reachable_from_crypto_scalarmult": [prog.by_key[k].path for k in seen][:8]})
+
+
+def _is_varbase(c):
+    if c.path == "std::ops::Mul::mul" and ("MontgomeryPoint" in c.full or "EdwardsPoint" in c.full) and "BasepointTable" not in c.full:
+        return True
+    if c.path.startswith("curve25519_dalek::") and c.name in ("mul", "multiscalar_mul", "vartime_multiscalar_mul", "mul_clamped_reduced") and "BasepointTable" not in c.full:
+        return True
+    return c.path in VARBASE_OK or c.path.endswith("MontgomeryPoint::mul_clamped")
+
+
+def all_paths(rep, prog, root, seen):
+    """X25519(n, p) is computed from the caller's point on *every* path: each return of
+    crypto_scalarmult (helpers folded in) lies behind the variable-base product of n and p.  The only
+    path that may bypass it is the equal edge of a comparison of the *whole* point with a value that
+    does not depend on the inputs (then p is known, e.g. a base-point table shortcut); a comparison of
+    a sub-slice of p does not determine p."""
+    from ..inline import inline
+    v = inline(prog, root, pick=lambda call, t: t.key in seen and t.kind != "closure")
+    pn, pp = 2, 3
+    mult = []
+    for c in v.calls():
+        if _is_varbase(c):
+            back = set()
+            for a in c.args:
+                back |= v.backward_slice(operand_locals(a))
+            if pn in back and pp in back:
+                mult.append(c.bb)
+    exempt = []
+    for b in range(v.n):
+        t = v.blocks[b]["t"]
+        if t["k"] != "switch":
+            continue
+        e = expr_of_operand(v, t["x"])
+        if e.k != "call" or e.a.name not in ("eq", "ne") or "PartialEq" not in e.a.path or len(e.a.args) != 2:
+            continue
+        sides = []
+        for a in e.a.args:
+            ls = list(operand_locals(a))
+            if not ls:
+                sides.append(("const", None))
+                continue
+            r_, narrowed = cm.view_info(v, ls[0])
+            dep = v.backward_slice(ls) & {1, 2, 3}
+            sides.append(("p" if (r_ == pp and not narrowed) else ("input" if dep else "const"), r_))
+        kinds = sorted(k for k, _ in sides)
+        if kinds == ["const", "p"]:
+            arms = {val: tb for val, tb in t["arms"]}
+            eq_t = t["otherwise"] if e.a.name == "eq" else arms.get(0)
+            ne_t = arms.get(0) if e.a.name == "eq" else t["otherwise"]
+            if eq_t is not None and eq_t != ne_t:
+                exempt.append((b, eq_t))
+    rets = [b for b in range(v.n) if v.blocks[b]["t"]["k"] == "return"]
+    free = v.reachable(0, cut_blocks=mult, cut_edges=exempt)
+    bad = [b for b in rets if b in free]
+    why = "every return lies behind the product of n and p (%d product site(s), %d whole-point shortcut edge(s))" % (len(mult), len(exempt))
+    if bad:
+        path = v.path_between(0, bad[0], cut_blocks=mult, cut_edges=exempt) or []
+        sw = [v.loc(b) for b in path if v.blocks[b]["t"]["k"] == "switch"]
+        why = "a path returns without multiplying the caller's point (branching at %s): the output on that path does not depend on p" % (sw[-1:] or [v.loc(bad[0])])
+    rep.ob("PROV", "%s|every path multiplies the caller's point" % root.path, bool(mult) and not bad, why, loc=v.loc(bad[0]) if bad else root.loc())
 
 
 def half_of(f, operand):
